@@ -6,6 +6,7 @@ mod cases;
 mod master;
 mod query;
 mod ser;
+mod settings;
 mod rd;
 
 use std::io::{BufRead, Write};
